@@ -693,6 +693,19 @@ where
     }
 }
 
+#[cfg(futures_intrusive_verif)]
+impl<'a, MutexType, T, A> ChannelStream<'a, MutexType, T, A>
+where
+    A: RingBuf<Item = T>,
+    MutexType: RawMutex,
+{
+    /// Verification hook: address of the wait node of the pending receive
+    /// future (0 if there is none).
+    pub fn verif_future_node_addr(&self) -> usize {
+        self.future.as_ref().map_or(0, |f| f.verif_node_addr())
+    }
+}
+
 // Export a non thread-safe version using NoopLock
 
 /// A [`GenericChannel`] implementation which is not thread-safe.
@@ -1226,6 +1239,19 @@ mod if_alloc {
         {
             fn is_terminated(&self) -> bool {
                 self.is_terminated
+            }
+        }
+
+        #[cfg(futures_intrusive_verif)]
+        impl<MutexType, T, A> SharedStream<MutexType, T, A>
+        where
+            MutexType: RawMutex,
+            A: 'static + RingBuf<Item = T>,
+        {
+            /// Verification hook: address of the wait node of the pending
+            /// receive future (0 if there is none).
+            pub fn verif_future_node_addr(&self) -> usize {
+                self.future.as_ref().map_or(0, |f| f.verif_node_addr())
             }
         }
 
